@@ -17,6 +17,7 @@ import (
 	"verifharness/hx"
 	"verifharness/ossl"
 	"verifharness/ref/cms"
+	"verifharness/ref/der"
 	"verifharness/seeds"
 )
 
@@ -157,6 +158,28 @@ func checkCase(c Case) error {
 		}
 	}
 
+	origSig := append([]byte{}, c.Sig...)
+	defer func() {
+		if !bytes.Equal(origSig, c.Sig) {
+			panic("verification modified the caller's signature bytes (C16)")
+		}
+	}()
+	if attached && len(c.Sig)%2 == 0 {
+		// a tampered copy (one content byte changed) is verified first and must be refused; the genuine signature afterwards must still verify
+		if root, err := der.ParseOne(c.Sig, der.Options{}); err == nil {
+			clone := root.Clone()
+			if sd2, err := cms.Locate(clone); err == nil && sd2.EContent0 != nil && len(sd2.EContent0.Children) > 0 && len(sd2.EContent0.Children[0].Content) > 0 {
+				cn := sd2.EContent0.Children[0]
+				cn.Content[len(cn.Content)/2] ^= 0x01
+				if bp, err := pkcs7.ParsePKCS7(clone.Encode()); err == nil {
+					if ok, err := bp.Verify(cert); ok && err == nil {
+						return fmt.Errorf("Verify accepts a third-party signature whose attached content was changed (%s)", c.Source)
+					}
+					hx.Class("tampered_copy_verified_first")
+				}
+			}
+		}
+	}
 	p, err := pkcs7.ParsePKCS7(c.Sig)
 	if err != nil {
 		return fmt.Errorf("ParsePKCS7 rejects a third-party signature (%s, %d bytes, %d signed attributes): %v", c.Source, len(c.Sig), nAttrs, err)
@@ -195,6 +218,12 @@ func checkCase(c Case) error {
 		if ok, err := p.Verify(oc); ok && err == nil {
 			return fmt.Errorf("Verify succeeds against another certificate (%s) for %s", name, c.Source)
 		}
+	}
+	// the caller's bytes are still the same signature: parse and verify them once more
+	if p2, err := pkcs7.ParsePKCS7(c.Sig); err != nil {
+		return fmt.Errorf("the signature bytes no longer parse after they have been verified once (%s): %v", c.Source, err)
+	} else if ok, err := p2.Verify(cert); !ok || err != nil {
+		return fmt.Errorf("the signature no longer verifies when parsed a second time (%s): %v %v", c.Source, ok, err)
 	}
 	// reconstructing the signed-attribute encoding from the parsed values reproduces the signed bytes
 	if len(p.SignerInfo) == 0 || p.SignerInfo[0].AuthenticatedAttributes == nil {
